@@ -325,6 +325,40 @@ Proof.
     rewrite firstn_app_2. cbn [firstn]. reflexivity.
 Qed.
 
+Lemma tick_times_nth I n : forall k j, (j < n)%nat -> nth_error (tick_times I k n) j = Some ((k + N.of_nat j) * I).
+Proof.
+  induction n as [|n IH]; intros k j Hj; [lia|]. cbn [tick_times]. destruct j as [|j]; cbn [nth_error].
+  - f_equal. lia.
+  - rewrite IH by lia. f_equal. lia.
+Qed.
+
+(* the ticker is anchored: as long as each response arrives within one interval, ping number j
+   is sent at j*I whatever the response delays are, so the period between any two pings is an
+   exact multiple of I — it does not drift with the round-trip time *)
+Theorem ping_period_independent_of_delay I T ds : 0 < I -> Forall (fun d => d <= I) ds ->
+  (forall j, (j < length ds)%nat ->
+     nth_error (ko_starts (keepalive I T (answered ds))) j = Some (N.of_nat (S j) * I)) /\
+  (forall j k tj tk, (j <= k)%nat ->
+     nth_error (ko_starts (keepalive I T (answered ds))) j = Some tj ->
+     nth_error (ko_starts (keepalive I T (answered ds))) k = Some tk ->
+     tk - tj = N.of_nat (k - j) * I).
+Proof.
+  intros HI Hds.
+  destruct (ping_per_tick I T ds (Answered 0) [] HI Hds) as (H & _).
+  assert (A : forall j, (j < length ds)%nat ->
+     nth_error (ko_starts (keepalive I T (answered ds))) j = Some (N.of_nat (S j) * I)).
+  { intros j Hj. rewrite H, tick_times_nth by exact Hj. f_equal. lia. }
+  split; [exact A|].
+  intros j k tj tk Hjk Hj Hk.
+  assert (L : forall k0 n, length (tick_times I k0 n) = n).
+  { intros k0 n; revert k0; induction n as [|n IHn]; intros k0; cbn; [reflexivity | rewrite IHn; reflexivity]. }
+  assert (Lk' : (k < length ds)%nat).
+  { assert (Hs : nth_error (ko_starts (keepalive I T (answered ds))) k <> None) by (rewrite Hk; discriminate).
+    apply nth_error_Some in Hs. rewrite H, L in Hs. exact Hs. }
+  rewrite (A j) in Hj by lia. rewrite (A k) in Hk by lia.
+  injection Hj as <-. injection Hk as <-. nia.
+Qed.
+
 (* in every run, whatever the pings do: ping number j (from 1) is not sent before j*interval,
    and a ping is sent at most one interval after the previous one returned *)
 Lemma ka_loop_lower I T s : 0 < I -> forall now nxt pd j t,
@@ -539,6 +573,38 @@ Proof.
         fold (answered pre). rewrite IH. unfold peer_outcome. destruct (x <? ro_timeout o) eqn:Ex; [reflexivity | lia].
       - unfold peer_outcome at 1. destruct (d <? ro_timeout o) eqn:Ed; [lia | reflexivity]. }
     rewrite Hm. apply timeout_reported. exact HI.
+Qed.
+
+(* the documented defaulting rule (reconnclient.go:70-75; 0 = option not given): PingInterval
+   defaults to the CONNECT keep-alive, Timeout defaults to PINGINTERVAL (not to the keep-alive) *)
+Theorem rc_effective_rule p t ka :
+  ro_ping_interval (rc_effective (mk_ro p t) ka) = (if p =? 0 then ka else p) /\
+  ro_timeout (rc_effective (mk_ro p t) ka) = (if t =? 0 then (if p =? 0 then ka else p) else t) /\
+  (0 < p -> t = 0 -> rc_effective (mk_ro p t) ka = mk_ro p p).
+Proof.
+  unfold rc_effective. cbn [ro_ping_interval ro_timeout]. repeat split.
+  intros Hp ->. destruct (p =? 0) eqn:E; [lia | reflexivity].
+Qed.
+
+(* hence: only a ping interval configured (keep-alive absent or much longer): a peer answering
+   within that interval is kept for any number of pings, and a silent one is reported with the
+   timeout p, i.e. not before and (in the model) exactly at 2p after the connection *)
+Theorem reconnect_timeout_defaults_to_interval p ka ds : 0 < p ->
+  let o := rc_effective (mk_ro p 0) ka in
+  (Forall (fun d => d < p) ds -> forall out, rc_keepalive_peer o (map Some ds) = Some out ->
+     ko_result out = KA_running /\ pings out = length ds) /\
+  (forall out, rc_keepalive_peer o [None] = Some out ->
+     ko_result out = KA_returned EPingTimeout /\ ko_end out = p + p).
+Proof.
+  intros Hp. cbn zeta.
+  destruct (rc_effective_rule p 0 ka) as (_ & _ & E). rewrite (E Hp eq_refl). split.
+  - intros Hds out Ho.
+    destruct (reconnect_interval_then_timeout (mk_ro p p) ds Hp) as (_ & H & _).
+    destruct (H Hds out Ho) as (H1 & H2 & _). split; assumption.
+  - intros out. unfold rc_keepalive_peer, rc_keepalive, keepalive, ka_env. cbn [ro_ping_interval ro_timeout].
+    destruct (0 <? p) eqn:E1; [|lia]. destruct (p =? 0) eqn:E2; [lia|]. intros [= <-].
+    cbn [map peer_outcome env_of ka_loop ping_run pe_before pe_beh pe_during or_else po_ret po_dur po_parent po_to classify
+         ko_result ko_end]. split; [reflexivity | lia].
 Qed.
 
 (* the defaults (reconnclient.go:70-75) *)
